@@ -14,6 +14,13 @@ CHECKS = {
         "Trusted: Lean kernel + 3 standard axioms; the hand-written model lean/Cfi/Container.lean (tied to the code only by the correspondence run); harness and driver. Element values are absent from the model (the repaired code decides by identity); the pinned code's value-equality variants are in Cfi/Legacy.lean with decide-d counter-examples.",
         "6/C07",
     ),
+    "C08": (
+        True,
+        "Lean 4 proof: queries and bulk removal on the heap model equal list filter/erase on the abstract list (on top of the C07 invariant, induction over the removal loop) + differential correspondence against the three container classes",
+        "Theorems Props.C08.main / removeOfType_repr / no_match_left / non_matching_kept: for every well-formed container state (hence after any history), of_type = filter isinstance, the getter = shape of the doubly filtered list and leaves the container unchanged, bulk removal leaves exactly the non-matching members in order plus possibly the first element. Tied to /repo by running exhaustive small containers (<=3-4 elements x 3 classes with a subclass edge x attribute values x requested types incl. foreign x filters) and random histories+queries on the real containers and on the model.",
+        "Trusted: Lean kernel + 3 standard axioms; model lean/Cfi/Container.lean; harness element classes with properties a0..a2; isinstance/== of Python ints represented by a class table and integer equality in Spec.C08 (isSub, meetsFilter).",
+        "6/C08",
+    ),
 }
 
 ALL = [f"C{i:02d}" for i in range(1, 21)]
